@@ -95,10 +95,9 @@ static void w_device(int open)
 #else
       PROXY_QUEUE *q = malloc(QUEUE_ELEM_SIZE(q, W_MAXLINES));
 #endif
-#ifdef W_FRAME_DATA                                    /* frame contents symbolic (C18); irrelevant for the C19 obligations */
-      in_bytes(q, QUEUE_ELEM_SIZE(q, W_MAXLINES));
-#else
       q->ref_count = 0; q->use_count = 0; q->line_count = (int) in_u8(); q->timestamp = 0.0;
+#ifdef W_FRAME_DATA                                    /* frame contents symbolic (C18); irrelevant for the C19 obligations */
+      { uint64_t t = in_u64(); memcpy(&q->timestamp, &t, 8); in_bytes(q->lines, sizeof(vbi_sliced) * W_MAXLINES); }
 #endif
       q->p_next = NULL; q->p_raw_data = NULL; q->max_lines = W_MAXLINES;
       V_ASSUME(q->line_count >= 0 && q->line_count < q->max_lines);
@@ -300,7 +299,7 @@ static int inv_dev(int dev)
   return d->p_decoder != NULL && d->p_tmp_buf == NULL;
 }
 /* Q, written over ONE walk of each list (pointer chains are symbolic after the step) */
-#define W_QS 3      /* longest frame queue looked at */
+#define W_QS 4      /* longest frame queue looked at */
 #define W_QF 5      /* longest free list looked at */
 static int inv_queue(void)
 {
@@ -334,6 +333,34 @@ static int inv_queue(void)
     for (m = 0; m < k; m++) ok &= qs[m] != qs[k];
   }
   return ok;
+#endif
+}
+static uint32_t be32(const uint8_t *p) { return ((uint32_t) p[0] << 24) | ((uint32_t) p[1] << 16) | ((uint32_t) p[2] << 8) | p[3]; }
+/* x is the k-th element of the list */
+static int q_pos_is(const PROXY_QUEUE *head, const PROXY_QUEUE *x, int k)
+{
+  const PROXY_QUEUE *p = head; int j;
+  for (j = 0; j < 4; j++) { if (p == NULL) return 0; if (j == k) return p == x; p = p->p_next; }
+  return 0;
+}
+/* native replay only: print the world (set C19_TRACE=1) */
+static void w_dump(const char *tag)
+{
+#ifndef VERIF_CBMC
+  unsigned i; const PROXY_QUEUE *p; int k;
+  if (!getenv("C19_TRACE")) return;
+  printf("== %s: now=%ld dev0{cap=%p svc=0x%x prio=%d maxl=%d}\n", tag, (long) C19.now, (void *) proxy.dev[0].p_capture, proxy.dev[0].all_services, proxy.dev[0].chn_prio, proxy.dev[0].max_lines);
+  for (k = 0, p = proxy.dev[0].p_sliced; p && k < 8; p = p->p_next, k++) printf("   queued %p ref=%u lines=%d\n", (void *) p, p->ref_count, p->line_count);
+  for (k = 0, p = proxy.dev[0].p_free; p && k < 8; p = p->p_next, k++) printf("   free   %p ref=%u\n", (void *) p, p->ref_count);
+  for (i = 0; i < W_ncl; i++) {
+    const PROXY_CLNT *c = W_cl[i];
+    if (W_gone[i]) { printf("   client%u gone\n", i); continue; }
+    printf("   client%u dev=%d state=%d fd=%d token=%d prio=%d prof{valid=%d sub=%d min=%ld} compl=%d cyc=%d start=%ld svc=0x%x [%x %x %x %x] cur=%p wlen=%u ind=0x%x\n", i, c->dev_idx, c->state, c->io.sock_fd,
+           c->chn_state.token_state, c->chn_prio, c->chn_profile.is_valid, c->chn_profile.sub_prio, (long) c->chn_profile.min_duration, c->chn_state.is_completed, c->chn_state.cycle_count,
+           (long) c->chn_state.last_start, c->all_services, c->services[0], c->services[1], c->services[2], c->services[3], (void *) c->p_sliced, c->io.writeLen, c->chn_status_ind);
+  }
+#else
+  (void) tag;
 #endif
 }
 static void w_assume_inv(void)
